@@ -943,7 +943,10 @@ def judge_write(ctx: Ctx, script: dict, idx: int, ops: List[dict], obs: dict, wo
     # ---- executed request (untimed, or timed with a live prepare)
     if pid is not None and entries and not changed and not obs["log"] and len(items) == len({(e["aid"], e["iid"]) for e in entries}) and all(
         it.get("status") == ref.INVALID_VALUE for it in items
-    ) and any(reaches_callback(e) for e in entries):
+    ) and any(
+        # a characteristic ALL of whose entries carry an acceptable value is not answered invalid-value by an executed request
+        all(reaches_callback(x) for x in entries if (x["aid"], x["iid"]) == (e["aid"], e["iid"])) for e in entries
+    ):
         bad(
             "C10:timed-write-with-live-prepare-refused",
             f"connection {conn} prepared pid {pid}, has not used it, and its time to live has not elapsed "
